@@ -87,8 +87,8 @@ def gen_history(rng, ndev=2, nops=10, with_folders=False, with_clock=True, confl
             ops.append("m%d:%s:%s" % (d, rng.choice(slots), rng.choice(fslots)))
         elif with_folders and r < 0.97:
             ops.append("r%d:%s:%d" % (d, rng.choice(fslots), rng.randrange(3)))
-        elif extra_ops:
-            ops.append(rng.choice(extra_ops) % {"d": d, "f": rng.choice(fslots), "s": rng.choice(slots)})
+        elif extra_ops and r >= 0.88:
+            ops.append(rng.choice(extra_ops) % {"d": d, "f": rng.choice(fslots), "s": rng.choice(slots), "o": (d + 1) % ndev})
         else:
             ops.append("p%d:%s" % (d, rng.choice(fslots)))
     for _ in range(ROUNDS):
